@@ -7,4 +7,6 @@ import Corro.Props.C16
 #print axioms Corro.ClusterGate.targets_same_cluster
 #print axioms Corro.ClusterGate.ring0_targets_same_cluster
 #print axioms Corro.ClusterGate.all_sites_guarded
+#print axioms Corro.ClusterGate.all_sites_fresh
+#print axioms Corro.ClusterGate.decisions_follow_current_id
 #print axioms Corro.ClusterGate.observation_stale_connection_after_set_id
